@@ -88,6 +88,7 @@ structure Sc where
   ch : Nat := 1
   compression : Nat := 0
   dataoffset : Int := -1
+  dataend : Int := 0             -- psf->dataend: the end of the BODY chunk when the file goes on behind it (repair of KF-SVX-BODY-PAD)
 deriving Repr, DecidableEq, Inhabited
 
 inductive Step
@@ -105,8 +106,10 @@ def skip (bs : List Byte) (s : Sc) (pos size : Nat) : Step :=
   if size ≥ 2 ^ 31 then .unm else                                 -- `int count` goes negative: KF-C03-svx-backjump
   .cont { s with pos := adv bs pos size, used := s.used + size }
 
-/-- one iteration of the `while (! done)` loop of `svx_read_header` after the FORM chunk -/
-def step (bs : List Byte) (s : Sc) : Step :=
+/-- one iteration of the `while (! done)` loop of `svx_read_header` after the FORM chunk.  `fx` = the repair of KF-SVX-BODY-PAD is in
+    (the BODY case records `psf->dataend` when bytes follow the chunk); `fx = false` is the rule before it (`dataend` stays 0 and
+    pcm_init takes the data length from the file length: the IFF pad byte and trailing chunks are counted as audio) -/
+def stepW (fx : Bool) (bs : List Byte) (s : Sc) : Step :=
   if s.used > cacheLimit then .unm else
   let flen := bs.length
   let (m, pos) := rdN bs s.pos 4
@@ -129,7 +132,8 @@ def step (bs : List Byte) (s : Sc) : Step :=
     if !s.haveVhdr then .fail else                                -- SFE_SVX_NO_BODY
     let dl : Int := if (size : Int) > (flen : Int) - (pos : Int) then (flen : Int) - (pos : Int) else size
     if dl < 0 then .unm else
-    fin (.cont { s with pos := pos + dl.toNat, haveBody := true, dataoffset := pos })
+    fin (.cont { s with pos := pos + dl.toNat, haveBody := true, dataoffset := pos,
+                        dataend := if fx ∧ (pos : Int) + dl < (flen : Int) then (pos : Int) + dl else s.dataend })
   else if m = mk4 "NAME" then
     if size > 255 then .fail else                                 -- SFE_SVX_BAD_NAME_LENGTH
     fin (skip bs s pos size)
@@ -145,25 +149,30 @@ def step (bs : List Byte) (s : Sc) : Step :=
   else if pos % 4 ≠ 0 then fin (skip bs s pos (4 - pos % 4))      -- "Resynching"
   else .stop s
 
-def walk (bs : List Byte) : Nat → Sc → Option (Option Sc)      -- none: unmodelled, some none: error
+def step (bs : List Byte) (s : Sc) : Step := stepW true bs s
+def stepOld (bs : List Byte) (s : Sc) : Step := stepW false bs s
+
+def walkW (fx : Bool) (bs : List Byte) : Nat → Sc → Option (Option Sc)      -- none: unmodelled, some none: error
   | 0, _ => none
   | fuel+1, s =>
-    match step bs s with
-    | .cont s' => walk bs fuel s'
+    match stepW fx bs s with
+    | .cont s' => walkW fx bs fuel s'
     | .stop s' => some (some s')
     | .fail => some none
     | .unm => none
+
+def walk (bs : List Byte) : Nat → Sc → Option (Option Sc) := walkW true bs
 
 /-- the checks after the loop, svx_open, pcm_init, validate_sfinfo, validate_psf -/
 def finish (flen : Nat) (bytewidth : Nat) (s : Sc) : ParseRes :=
   if s.compression ≠ 0 then .err else                             -- SFE_SVX_BAD_COMP
   if s.dataoffset ≤ 0 then .err else                              -- SFE_SVX_NO_DATA
-  let r := codecFrames flen s.dataoffset 0 ((bytewidth * s.ch : Nat) : Int)
+  let r := codecFrames flen s.dataoffset s.dataend ((bytewidth * s.ch : Nat) : Int)
   if s.sr < 1 ∨ r.2 < 0 ∨ r.1 < 0 then .err else
   .ok { ch := s.ch, fmt := 0x060000 + bytewidth, sr := s.sr, frames := r.2.toNat }
 
-/-- `sf_open_virtual (SFM_READ)` on `bs` -/
-def parse (bs : List Byte) : ParseRes :=
+/-- `sf_open_virtual (SFM_READ)` on `bs` (`fx`: see `stepW`) -/
+def parseW (fx : Bool) (bs : List Byte) : ParseRes :=
   if bs.length < 12 then .err else                               -- guess_file_type: SFE_BAD_FILE_READ
   if bs.take 4 ≠ mk4 "FORM" then .unmodelled else
   let t := (bs.drop 8).take 4
@@ -172,9 +181,13 @@ def parse (bs : List Byte) : ParseRes :=
   let bytewidth := if t = mk4 "8SVX" then 1 else 2
   let s0 : Sc := {}
   if (12 : Int) ≥ (bs.length : Int) - 4 then finish bs.length bytewidth s0 else
-  match walk bs bs.length s0 with
+  match walkW fx bs bs.length s0 with
   | none => .unmodelled
   | some none => .err
   | some (some s) => finish bs.length bytewidth s
+
+def parse (bs : List Byte) : ParseRes := parseW true bs
+/-- the reader before the repair of KF-SVX-BODY-PAD -/
+def parseOld (bs : List Byte) : ParseRes := parseW false bs
 
 end Sf.Svx
